@@ -6,7 +6,13 @@ Two parts, both exhaustive over a stated finite space and executed on the real
 (C) refinement: full Cartesian product  frame x numbering x data variant x
     labels-subset x nlevels x contrast x mode x connectivity x relabel x
     npixels (nproc=1), judged by a set-partition oracle written on the label
-    arrays (mcphot/ref/deblend_scenes.py).
+    arrays (mcphot/ref/deblend_scenes.py).  The parent alphabet has smooth
+    blends, pixel-art parents (ties, plateau, tiny) and "spike" parents: a
+    blend with a sub-npixels bright component (hot pixel, 2x2 hit, generic
+    noise) inside the segment, placed first / between / last among the marker
+    components in raster order -- the multi-threshold step discards it, so the
+    per-parent marker numbers have a hole; such parents appear before AND after
+    other deblendable parents (full product of the core alphabet).
 
 (B) schedules: the module-level names ``ProcessPoolExecutor`` / ``as_completed``
     of ``photutils.segmentation.deblend`` are replaced by an in-process
@@ -38,8 +44,10 @@ RULE = ('(B) schedules: for every schedule scene x configuration x nproc in {2,3
         '(each moves the merge state S -> S+{i}), states = distinct (configuration, set of results consumed so far) '
         'recorded by the executor; a schedule is non-trivial when it is not the submission order and at least two of '
         'the tasks really deblend their parent. (C) refinement: full Cartesian product frame x numbering x variant x '
-        'labels-subset x nlevels x contrast x mode x connectivity x relabel x npixels; non-trivial when at least one '
-        'parent is split; cases are distinct product indices')
+        'labels-subset x nlevels x contrast x mode x connectivity x relabel x npixels; frames = every single parent '
+        'type, ALL ordered pairs (thorough: also all ordered triples) over the core alphabet {single, 2-blend, 3-blend, '
+        '2-blend with a sub-npixels spike that leaves a hole in its marker numbers}, and designed frames; non-trivial '
+        'when at least one parent is split; cases are distinct product indices')
 ASSUMPTIONS = ['the parent process observes the pool only through the order in which as_completed yields futures and '
                'through pickled arguments/results; worker processes share no state (tasks are pure functions of their '
                'pickled arguments) -- the stub runs each task from its pickle and returns a pickle round trip',
@@ -48,7 +56,13 @@ ASSUMPTIONS = ['the parent process observes the pool only through the order in w
                'spawn pool is run free on a few scenes behind the same recorder and must show the same API trace shape',
                'skimage watershed, scipy.ndimage.label and numpy are trusted only through the refinement invariants',
                'scenes are at most 5 parents of at most 3 components on 18x26 tiles; > 200 markers (nmarkers fallback) '
-               'is not reached']
+               'is not reached',
+               'sub-npixels components inside a parent are: one hot pixel (first / middle / last marker component in '
+               'raster order, below or above the source maximum), one 2x2 block (npixels-1 pixels), and one seed-generic '
+               'sparse noise image; that the hot-pixel parents really produce the stated marker pattern at the first '
+               'separating level is checked by selftest/test_c06_schedules.py with a plain flood fill (not observed at '
+               'run time); several spikes per parent at designed places, and spikes on 3-blends other than "first", are '
+               'not enumerated']
 
 NLEVELS = (1, 4, 32)
 CONTRAST = (0.0, 0.001, 0.3, 1.0)
@@ -324,6 +338,12 @@ def _refine_case(acc, frame, numb, variant, p, seed, built=None):
         acc.counters['parents_split'] += nsplit
         if any(c >= 3 for c in info['children']):
             acc.counters['cases_with_3_children'] += 1
+        # vacuity guard of the spike sub-space: a parent whose marker numbers have a hole (npixels > spike size) is
+        # split in the same call as at least one other parent (child numbers of different parents must not collide)
+        if nsplit >= 2 and p['npixels'] > 1:
+            spiked = {l for l, t in zip(labs, frame) if t in S.SPIKE_TYPES}
+            if spiked & set(info['deblended']):
+                acc.counters['cases_spike_parent_split_together_with_another_parent'] += 1
 
 
 def _run_refine(acc, unit, tier, seed):
@@ -698,11 +718,22 @@ def describe(tier, seed):
                              'F': 'faint companion (flux fraction between contrast 0.001 and 0.3)',
                              'B3f': '3-blend whose first marker is pruned at contrast 0.3',
                              'P': 'plateau min==max', 'T': 'two flat squares + lower bridge', 'Y': '3-pixel two-peak parent',
-                             'D': 'two-peak block with diagonal-only appendage (invalid for connectivity 4)'},
+                             'D': 'two-peak block with diagonal-only appendage (invalid for connectivity 4)',
+                             'H2a': '2-blend + hot pixel (1 px < npixels=5) above the peaks: FIRST marker component in raster '
+                                    'order is discarded, surviving marker numbers {2,3}',
+                             'H2m': 'diagonal 2-blend + hot pixel between the peaks in raster order: marker numbers {1,3}',
+                             'H2z': '2-blend + hot pixel below the peaks: marker numbers {1,2}, hole at the end',
+                             'H2q': '2-blend + 2x2 spike (npixels-1 pixels) above the peaks',
+                             'H2x': '2-blend + hot pixel above the peaks that is the source maximum (sets the level range)',
+                             'H3a': '3-blend triangle + hot pixel above the peaks: hole at the first separating level, '
+                                    'renumbered when the third peak separates at a later level',
+                             'N2': '2-blend + seed-generic sparse positive noise image inside the segment'},
+            'core_alphabet_for_pairs' + ('' if tier == 'quick' else '_and_triples'):
+                list(CORE) if tier == 'quick' else {'pairs': list(CORE_PAIRS_THOROUGH), 'triples': list(CORE)},
             'refine_frames': [list(f) for f in frames],
             'numbering': list(refine_numberings(tier)),
-            'variant': 'pos, nonpos' + ('' if tier == 'quick' else ', quantity (frames of <= 2 parents); pos only for the 27 core triples and the 5-parent frame'),
-            'labels_subset': 'None, each single label (scalar), every pair' + (' in both orders (ascending only for the 27 core triples)' if tier == 'thorough' else ''),
+            'variant': 'pos, nonpos' + ('' if tier == 'quick' else ', quantity (frames of <= 2 parents); pos only for the 64 core triples and the 5-parent frames'),
+            'labels_subset': 'None, each single label (scalar), every pair' + (' in both orders (ascending only for the 64 core triples)' if tier == 'thorough' else ''),
             'nlevels': list(NLEVELS), 'contrast': list(CONTRAST), 'mode': list(MODES), 'connectivity': list(CONN),
             'relabel': list(RELABEL), 'npixels': list(NPIXELS),
             'label_dtype_subspace': {'frames': [list(f) for f in DTYPE_FRAMES], 'dtype': list(DTYPES),
